@@ -37,11 +37,11 @@ def IsEcKey (k : Key) (c : GoCurve) (x y : Nat) (d : Option Nat) : Prop :=
 
 theorem marshal_ec (o : Oracle) (k : Key) (c : GoCurve) (x y : Nat) (d : Option Nat)
     (hk : IsEcKey k c x y d) (hne : c ≠ .other) (E : EcOK o c x y d) :
-    (marshal k).run o = .ok (ecObj o k c x y d) := by
+    (marshalFrom k).run o = .ok (ecObj o k c x y d) := by
   obtain ⟨hp, hq⟩ := hk
   have hx : ((x : Int).natAbs) < 256 ^ c.size := by simpa using E.xs
   have hy : ((y : Int).natAbs) < 256 ^ c.size := by simpa using E.ys
-  unfold marshal
+  unfold marshalFrom
   simp only [PO.run_bind, run_encodeCommon, hp, hq]
   cases d with
   | none =>
